@@ -324,10 +324,23 @@ func chanGoverned(c *Ctx, v ssa.Value, f *ssa.Function) (bool, string) {
 func deferredIn(c *Ctx, g *ssa.Function) bool { return deferredInDepth(c, g, 0) }
 
 func deferredInDepth(c *Ctx, g *ssa.Function, depth int) bool {
-	par := g.Parent()
-	if par == nil || depth > 3 {
+	if depth > 3 {
 		return false
 	}
+	// g is a named function / method that some module function defers (defer s.markSent())
+	if g.Parent() == nil {
+		for _, f := range c.P.ModFuncs {
+			for _, b := range f.Blocks {
+				for _, in := range b.Instrs {
+					if df, ok := in.(*ssa.Defer); ok && df.Call.StaticCallee() == g {
+						return true
+					}
+				}
+			}
+		}
+		return false
+	}
+	par := g.Parent()
 	// g is called from (or handed to a call such as once.Do inside) a closure that is itself deferred: defer signal(); signal = func() { once.Do(g) }
 	for _, b := range par.Blocks {
 		for _, in := range b.Instrs {
